@@ -1,8 +1,8 @@
 /-
 C12 — compilation is a pure function of the text and the options.  Property theorems only.
 The state machine of `Compiler/Api.lean` is tied to /repo by harness/props/c12.py: monitors around real API
-calls (which process-wide components each call reads, writes and resets; module-level objects and shared
-default arguments never change) and the frame condition `FlagBlind`.
+calls (which process-wide components each call reads, writes and resets — in particular that the auto-link flag is back at its
+start value after every call; module-level objects and shared default arguments never change).
 -/
 import Cnl2aspModel.Compiler.Api
 
@@ -10,31 +10,33 @@ namespace Cnl2aspModel.Api
 
 variable {σ ρ Out : Type}
 
-/-- History independence: whatever was compiled, checked or rejected before — any sequence of API calls, from
-any process state — the result of a call is the result it has in a fresh process.  Holds for every front end
-(parser, converters) whatsoever. -/
-theorem C12_history (F : Front σ ρ Out) (hb : FlagBlind F) (g0 : G σ) (h : List Call) (c : Call) :
+/-- no call changes the auto-link flag beyond its own duration -/
+theorem step_flag (F : Front σ ρ Out) (g : G σ) (c : Call) : (step F g c).1.autoLink = g.autoLink := by
+  cases c <;> simp [step, parseInput]
+
+theorem run_flag (F : Front σ ρ Out) (g : G σ) (h : List Call) : (run F g h).autoLink = g.autoLink := by
+  induction h generalizing g with
+  | nil => rfl
+  | cons c cs ih => simp only [run]; rw [ih, step_flag]
+
+/-- History independence: whatever was compiled (with or without auto-linking), checked or rejected before — any sequence
+of API calls from the state a process starts in — the result of a call is the result it has in a fresh process.  Holds for every
+front end (parser, converters) whatsoever; no assumption about how results depend on the flag. -/
+theorem C12_history (F : Front σ ρ Out) (g0 : G σ) (h0 : g0.autoLink = true) (h : List Call) (c : Call) :
     (step F (run F g0 h) c).2 = (step F ⟨F.empty, true⟩ c).2 := by
-  generalize run F g0 h = g
+  have hf : (run F g0 h).autoLink = true := by rw [run_flag, h0]
+  generalize run F g0 h = g at hf
   cases c with
   | compile t al pf => rfl
   | getSymbols t => rfl
-  | checkSyntax t =>
-    simp only [step, parseInput]
-    cases hg : g.autoLink
-    · exact ((hb F.empty t).1).symm
-    · rfl
-  | cnlToJson t =>
-    simp only [step, parseInput]
-    cases hg : g.autoLink
-    · exact ((hb F.empty t).2).symm
-    · rfl
+  | checkSyntax t => simp only [step, parseInput, hf]
+  | cnlToJson t => simp only [step, parseInput, hf]
 
 /-- Repetition: calling the same thing again gives the same result. -/
-theorem C12_repeat (F : Front σ ρ Out) (hb : FlagBlind F) (g0 : G σ) (c : Call) :
+theorem C12_repeat (F : Front σ ρ Out) (g0 : G σ) (h0 : g0.autoLink = true) (c : Call) :
     (step F (step F g0 c).1 c).2 = (step F g0 c).2 := by
-  have h1 := C12_history F hb g0 [c] c
-  have h2 := C12_history F hb g0 [] c
+  have h1 := C12_history F g0 h0 [c] c
+  have h2 := C12_history F g0 h0 [] c
   simp only [run] at h1 h2
   rw [h1, h2]
 
